@@ -81,3 +81,25 @@ def tight_unwindset(batch):
     D = max([s["outcome"].depth for s in batch] + [max((len(s["outcome"].nodes) for s in batch), default=1) if any(s.get("built") for s in batch) else 0]) + 3
     C = max([x["n"] for s in batch for x in s["outcome"].nodes if x["kind"] not in (sk.X_UINT, sk.X_NEGINT, sk.X_TAG, sk.X_CTRL)] + [1]) + 2
     return ["%s:%d" % (f, D) for f in REC_FUNCS] + ["%s:%d" % (l, C) for l in REC_LOOPS] + ["_cbor_highest_bit.0:66"]
+
+
+def large_obligations(prefix, defines, kind, variant="dbg", ptrcheck=False, funcs=None, desc="", timeout=900, select=None):
+    """One obligation per member of the large-shape family (lib/skeleton.py enum_large): kind 'load' -> h_load.c, 'tree' -> h_ser.c."""
+    obls = []
+    for s in sk.enum_large():
+        if select and not select(s):
+            continue
+        n, nodes = len(s["bytes"]), len(s["outcome"].nodes)
+        d = dict(defines)
+        if kind == "tree":
+            d["MAXADDR"] = 2 * nodes + 8
+            src = {"trees.h": sk.c_trees([s])}
+            harness, unwind = "h_ser.c", max(n + 9 * nodes + 12, 2 * nodes + 12, 60)
+        else:
+            src = {"cases.h": sk.c_cases([s], 2048, True)}
+            harness, unwind = "h_load.c", n + 8 + int(d.get("P_SUFFIX", 0) or 0)
+        obls.append(Obl("%s_%s_%s" % (prefix, s["name"].replace(":", "_"), variant), harness, d, variant=variant, unwind=unwind,
+                        unwindset=tight_unwindset([s]) if ptrcheck else ["_cbor_highest_bit.0:66"], gen_src=src, timeout=timeout, leak=True, funcs=funcs or [],
+                        flags=["--max-field-sensitivity-array-size", "700"], drop_base=["--max-field-sensitivity-array-size", "256"], ptrcheck=ptrcheck, cost=20000 + n * nodes,
+                        desc=desc, bounds="1 large shape: %d bytes, %d nodes; data symbolic where the shape says so" % (n, nodes), sample={"shape": s["name"], "bytes": n, "nodes": nodes}))
+    return obls
